@@ -673,6 +673,7 @@ type HarnessReport struct {
 	Discharged   int
 	ConcreteAsrt int
 	Nontrivial   int
+	WithAssertion int
 	Reached      map[string]int
 	Violations   []*Violation
 	Inconclusive []string
@@ -753,6 +754,9 @@ func (e *Engine) RunHarness(name string, keepOK int) (*HarnessReport, error) {
 				rep.ConcreteAsrt += res.ConcreteAsrt
 				if res.Obligations > 0 {
 					rep.Nontrivial++
+				}
+				if res.Obligations+res.ConcreteAsrt > 0 {
+					rep.WithAssertion++
 				}
 				if len(res.Decisions) > rep.MaxDecisions {
 					rep.MaxDecisions = len(res.Decisions)
